@@ -40,6 +40,9 @@ class Module(object):
         except SyntaxError as e:
             raise AnalysisError('cannot parse %s: %s' % (rel, e))
         self.lines = self.src.splitlines()
+        if not os.environ.get('VERIF_NO_CANON'):
+            from . import canon
+            self.tree = canon.canonicalise(self.tree, rel)
         _link(self.tree, None, self)
         self._index = {}
         self._build_index(self.tree, '')
